@@ -122,6 +122,11 @@ def cli_case(rng, idx):
             observed = "ERR:ValueError" if "ValueError" in err else "ERR:Other"
             parts_txt = observed
     lines = [Line("corr", "split_spec", [proto.enc_s(spec), str(n)], observed)]
+    if rc != 0:
+        # the command refused: the specification must be malformed or demand more trees than exist
+        lines.append(Line("pred", "P.C17.reject", [proto.enc_s(spec), str(n)], note="command failed: " + err[-160:]))
+    elif observed.startswith("["):
+        lines.append(Line("pred", "P.C17.sizes", [proto.enc_s(spec), str(n), observed]))
     # the whole command against the model of transform.run with --split: the text of every part
     import re as _re
     decl = None
